@@ -248,6 +248,37 @@ func buildDB(run *mon.Run, s shape, dir string) (*built, error) {
 	b.sorted = append([]string{}, b.keys...)
 	sort.Slice(b.sorted, func(i, j int) bool { return bytes.Compare([]byte(b.sorted[i]), []byte(b.sorted[j])) < 0 })
 	fmt.Printf("OP build shape=%s class=%s keys=%d\n", s.Name, s.class(), len(b.keys))
+	// a third of the databases are written over the files of an earlier attempt for the same path: either a writer that died
+	// after some WriteData calls and before Save (a .dat without .idx), or a complete earlier database with other content;
+	// what is read back must be what THIS writer wrote
+	if mode := mon.NewRand(mon.Seed()).Fork("leftover:" + s.Name).Intn(6); mode < 2 && len(b.keys) > 0 {
+		old, err := blockdb.NewBlockDB(b.base, int8(s.L), s.Compress)
+		if err != nil {
+			return nil, err
+		}
+		if s.Header {
+			old.SetDBHeader(&hdr{data: []byte("header of the earlier attempt")})
+		}
+		if err := old.Create(); err != nil {
+			return nil, err
+		}
+		n := 1 + len(b.keys)/2
+		for i := 0; i < n; i++ {
+			k := b.keys[len(b.keys)-1-i%len(b.keys)]
+			if err := old.WriteData(&rec{key: k, data: []byte(fmt.Sprintf("earlier attempt, record %d of %x", i, k))}); err != nil {
+				return nil, fmt.Errorf("earlier attempt WriteData: %w", err)
+			}
+		}
+		if mode == 1 {
+			if err := old.Save(); err != nil {
+				return nil, fmt.Errorf("earlier attempt Save: %w", err)
+			}
+			run.Count("blockdb_written_over_complete_earlier_database", 1)
+		} else {
+			_ = old.Close()
+			run.Count("blockdb_written_over_unsaved_earlier_attempt", 1)
+		}
+	}
 	db, err := blockdb.NewBlockDB(b.base, int8(s.L), s.Compress)
 	if err != nil {
 		return nil, err
